@@ -52,12 +52,14 @@ class FilenameData(Data):
 
     @file_name.setter
     def file_name(self, value: str | None):
-        self._file_name = value
-
         if not isinstance(value, (str, type(None))):
             raise ValueError(
                 f"Input 'file_name' for {self} must be of type str or None."
             )
+
+        # The stored file is found under its current name: read it before renaming
+        self._values = self.values
+        self._file_name = value
 
         self.workspace.update_attribute(self, "values")
 
